@@ -176,6 +176,9 @@ pub struct UnifyOutcome {
     pub class:            Vec<usize>,
     /// Resolved data of every variable's class (`None`: no data entry).
     pub data:             Vec<Option<Vec<TypeExpression>>>,
+    /// The layout `TypeChecker::unify` returned (through-the-checker
+    /// deliveries only).
+    pub layout:           Option<sle::StorageLayout>,
     pub record:           verif::Record,
 }
 
@@ -204,6 +207,10 @@ pub struct UnifyOpts {
     /// `Delivery::Staged`: how many judgements make up the first stage (the
     /// first half if not given).
     pub staged_at:    Option<usize>,
+    /// Also register three constant-key storage slots, equated with the first
+    /// three variables, so that the layout `TypeChecker::unify` returns has
+    /// entries to compare.
+    pub with_slots:   bool,
 }
 
 /// Equivalent ways of handing one judgement set to the unifier.
@@ -228,17 +235,41 @@ pub enum Delivery {
     /// refines a result as evidence arrives). Unification starts from the
     /// recorded evidence every time, so the outcome has to be that of `Plain`.
     Staged,
+    /// As `Staged`, with the state living in a `TypeChecker` and both
+    /// unifications run as that stage (`TypeChecker::unify`); the second half
+    /// of the evidence is added through `state_mut()`, which is how a client
+    /// of the staged interface adds evidence of its own.
+    StagedThroughTypeChecker,
+    /// Equalities are recorded with `infer_many([v], eq(w))` instead of
+    /// `infer(v, eq(w))`.
+    EqualitiesThroughInferMany,
+    /// The evidence is recorded in one state object; a clone of it is unified
+    /// and observed (a client that keeps the recorded evidence and tries
+    /// things out on copies).
+    ClonedState,
 }
 
 impl Delivery {
     pub fn for_schedule(index: usize, seed: u64) -> Delivery {
+        let odd = seed % 2 == 1;
         match index {
             1 => Delivery::TwoPhase,
+            2 if odd => Delivery::EqualitiesThroughInferMany,
             2 => Delivery::OneSidedEqualities,
+            3 if odd => Delivery::StagedThroughTypeChecker,
             3 => Delivery::ThroughTypeChecker,
-            4 if seed % 2 == 1 => Delivery::Staged,
+            4 if odd => Delivery::Staged,
+            5 if seed % 4 >= 2 => Delivery::ClonedState,
             _ => Delivery::Plain,
         }
+    }
+
+    fn through_checker(self) -> bool {
+        matches!(self, Delivery::ThroughTypeChecker | Delivery::StagedThroughTypeChecker)
+    }
+
+    fn staged(self) -> bool {
+        matches!(self, Delivery::Staged | Delivery::StagedThroughTypeChecker)
     }
 }
 
@@ -250,6 +281,7 @@ impl Default for UnifyOpts {
             step_budget:  3_000_000,
             mode:         Delivery::Plain,
             staged_at:    None,
+            with_slots:   false,
         }
     }
 }
@@ -299,7 +331,7 @@ pub fn run_unify(ev: &EvidenceSet, sched: &Sched, opts: &UnifyOpts) -> UnifyOutc
     sim::capture_panics(true);
     let result = panic::catch_unwind(AssertUnwindSafe(|| {
         // The state lives either on its own or inside a type checker.
-        let mut checker = if opts.mode == Delivery::ThroughTypeChecker {
+        let mut checker = if opts.mode.through_checker() {
             Some(sle::tc::TypeChecker::new(sim::tc_config(false), wd.clone()))
         } else {
             None
@@ -324,27 +356,64 @@ pub fn run_unify(ev: &EvidenceSet, sched: &Sched, opts: &UnifyOpts) -> UnifyOutc
         } else {
             (0..ev.n_vars).map(|i| state.register(leaf_for(i))).collect()
         };
-        let split = opts.staged_at.unwrap_or(ev.judgements.len() / 2);
-        for (i, (v, e)) in ev.judgements.iter().enumerate() {
-            if opts.mode == Delivery::Staged && i == split {
-                let _ = unification::unify(state, &wd);
-            }
-            match (opts.mode, e) {
-                (Delivery::OneSidedEqualities, Ev::Equal { other }) if other != v => {
-                    state.inferences_mut(vars[*v]).insert(TE::eq(vars[*other]));
-                }
-                _ => state.infer(vars[*v], e.to_te(&vars)),
+        if opts.with_slots {
+            use sle::vm::value::{known::KnownWord, RSVD};
+            for j in 0..ev.n_vars.min(3) {
+                let key = RSV::new_known_value(0, KnownWord::from_le(j as u32), Provenance::Synthetic, None);
+                let slot = state.register(RSV::new_synthetic(0, RSVD::StorageSlot { key }));
+                state.infer(slot, TE::eq(vars[j]));
             }
         }
-        let r = if opts.mode == Delivery::ThroughTypeChecker {
-            // (the borrow of the state above ends here)
-            checker.as_mut().expect("checker exists in this mode").unify().map(|_layout| ())
-        } else {
-            unification::unify(state, &wd)
+        let split = opts.staged_at.unwrap_or(ev.judgements.len() / 2);
+        let record = |state: &mut TypeCheckerState, v: &usize, e: &Ev| match (opts.mode, e) {
+            (Delivery::OneSidedEqualities, Ev::Equal { other }) if other != v => {
+                state.inferences_mut(vars[*v]).insert(TE::eq(vars[*other]));
+            }
+            (Delivery::EqualitiesThroughInferMany, Ev::Equal { .. }) => state.infer_many([vars[*v]], e.to_te(&vars)),
+            _ => state.infer(vars[*v], e.to_te(&vars)),
         };
+        let first_stage = if opts.mode.staged() { split.min(ev.judgements.len()) } else { ev.judgements.len() };
+        for (v, e) in &ev.judgements[..first_stage] {
+            record(state, v, e);
+        }
+        if opts.mode.staged() {
+            // The unification in the middle, then the rest of the evidence.
+            if opts.mode.through_checker() {
+                let _ = checker.as_mut().expect("checker exists in this mode").unify();
+            } else {
+                let _ = unification::unify(state, &wd);
+            }
+            let state: &mut TypeCheckerState = match checker.as_mut() {
+                Some(c) => unsafe { c.state_mut() },
+                None => &mut own_state,
+            };
+            for (v, e) in &ev.judgements[first_stage..] {
+                record(state, v, e);
+            }
+        }
         let state: &mut TypeCheckerState = match checker.as_mut() {
             Some(c) => unsafe { c.state_mut() },
             None => &mut own_state,
+        };
+        let mut layout = None;
+        let mut cloned: Option<TypeCheckerState> = None;
+        let r = if opts.mode.through_checker() {
+            // (the borrow of the state above ends here)
+            checker.as_mut().expect("checker exists in this mode").unify().map(|l| {
+                layout = Some(l);
+            })
+        } else if opts.mode == Delivery::ClonedState {
+            let mut copy = state.clone();
+            let r = unification::unify(&mut copy, &wd);
+            cloned = Some(copy);
+            r
+        } else {
+            unification::unify(state, &wd)
+        };
+        let state: &mut TypeCheckerState = match (cloned.as_mut(), checker.as_mut()) {
+            (Some(copy), _) => copy,
+            (None, Some(c)) => unsafe { c.state_mut() },
+            (None, None) => &mut own_state,
         };
         let error = r.err().map(|e| {
             e.payloads()
@@ -366,14 +435,14 @@ pub fn run_unify(ev: &EvidenceSet, sched: &Sched, opts: &UnifyOpts) -> UnifyOutc
             class.push(forest.find(&tv).index());
             data.push(forest.get_data(&tv).map(|d| d.iter().cloned().collect::<Vec<_>>()));
         }
-        (error, n_after, class, data, var_index)
+        (error, n_after, class, data, var_index, layout)
     }));
     sim::capture_panics(false);
     let record = verif::take_record();
     verif::reset(verif::Params::default());
     let _ = Rc::strong_count(&stats);
     match result {
-        Ok((error, n_after, class, data, var_index)) => {
+        Ok((error, n_after, class, data, var_index, layout)) => {
             // Harness variables are registered first, so index i is variable i.
             debug_assert!(var_index.iter().enumerate().all(|(i, v)| i == *v));
             UnifyOutcome {
@@ -384,6 +453,7 @@ pub fn run_unify(ev: &EvidenceSet, sched: &Sched, opts: &UnifyOpts) -> UnifyOutc
                 n_after,
                 class,
                 data,
+                layout,
                 record,
             }
         }
@@ -395,6 +465,7 @@ pub fn run_unify(ev: &EvidenceSet, sched: &Sched, opts: &UnifyOpts) -> UnifyOutc
             n_after: 0,
             class: vec![],
             data: vec![],
+            layout: None,
             record,
         },
     }
